@@ -270,4 +270,17 @@ CHECKS = {
              "non-trivial = a fault located after at least one valid row",
         technique="property-based testing with fault injection, round-trip oracle",
     ),
+    "C13": dict(
+        test="TestC13", level="exploration", shards=16,
+        tiers=dict(quick=dict(checks=40, timeout=600), thorough=dict(checks=2000, timeout=3000)),
+        rule="rapid stores of 2-5 symbols sharing timeframe/group/schema (1-4 columns over all wire types, fixed or "
+             "variable; 1/8: last symbol with one retyped column) x 2-6 DataService.Query requests with symbol lists of "
+             "existing, missing and repeated names or '*', and column lists of subsets in any order, unknown names, "
+             "duplicates and Epoch; oracle: per requested existing symbol the same rows as its single-symbol all-time "
+             "query, only requested existing columns (+ time columns) with identical types and bytes, missing symbols "
+             "contribute nothing, mixed schema: faithful or a clean error; non-trivial = >=2 symbols with different row "
+             "counts, or a projection",
+        assumptions=["the single-symbol unprojected query is checked by C08/C09"],
+        technique="differential property-based testing (multi/projected query vs single query)",
+    ),
 }
